@@ -20,7 +20,7 @@ var authzAssume = append([]string{
 func init() {
 	checks = append(checks, &CheckSpec{
 		Prop:    "C04",
-		Harness: []string{"c01_chain.go", "authz_gen.go", "c04_authz.go"},
+		Harness: hb(),
 		Entries: []EntrySpec{
 			{Pkg: "biscuit", Func: "VerifC04Verdict", Quick: sc("authFacts", 1, "authRule", 2, "authCheck", 2, "policies", 1), Thorough: sc("authFacts", 2, "authRule", 2, "authCheck", 3, "policies", 2), Covers: []string{"allow", "failed"}},
 			{Pkg: "biscuit", Func: "VerifC04Verdict", Quick: sc("authFacts", 1, "blocks", 1, "blkFacts", 1, "blkRule", 2, "blkCheck", 1), Thorough: sc("authFacts", 1, "authRule", 1, "blocks", 1, "blkFacts", 1, "blkRule", 2, "blkCheck", 2), Covers: []string{"allow", "failed"}},
@@ -51,7 +51,7 @@ func init() {
 	relModels := []string{modelSig, modelCodec, modelCtx}
 	checks = append(checks, &CheckSpec{
 		Prop:    "C02",
-		Harness: []string{"c01_chain.go", "c16_keyid.go", "authz_gen.go", "c04_authz.go", "authz_rel.go"},
+		Harness: hb(),
 		Entries: []EntrySpec{
 			{Pkg: "biscuit", Func: "VerifC02Attenuation",
 				Quick:    sc2(sc("authFacts", 1, "authCheck", 1), "newFacts", 1, "newRule", 2, "newCheck", 1),
@@ -73,7 +73,7 @@ func init() {
 	})
 	checks = append(checks, &CheckSpec{
 		Prop:    "C03",
-		Harness: []string{"c01_chain.go", "c16_keyid.go", "authz_gen.go", "c04_authz.go", "authz_rel.go"},
+		Harness: hb(),
 		Entries: []EntrySpec{
 			{Pkg: "biscuit", Func: "VerifC03Scoping",
 				Quick:    sc2(sc("authFacts", 1, "blkCheck", 1), "xFacts", 1, "xRule", 2),
@@ -83,15 +83,20 @@ func init() {
 				Quick:    sc2(sc("authFacts", 1, "blkCheck", 2), "xFacts", 0, "xRule", 2),
 				Thorough: sc2(sc("authFacts", 2, "blkFacts", 1, "blkCheck", 2), "xFacts", 0, "xRule", 2),
 				Covers:   []string{"compared"}},
+			// padded authority: the evaluator's fact storage has spare capacity when the blocks are evaluated
+			{Pkg: "biscuit", Func: "VerifC03Scoping",
+				Quick:    sc2(sc("authFacts", 1, "authPad", 2, "blkFacts", 1, "blkCheck", 1), "xFacts", 1, "xRule", 0),
+				Thorough: sc2(sc("authFacts", 1, "authPad", 4, "blkFacts", 1, "blkCheck", 2), "xFacts", 1, "xRule", 1),
+				Covers:   []string{"compared"}},
 		},
 		Assumptions: authzAssume, Models: relModels,
-		Explanation: "Authorize and Query executed on a token with and without a facts-and-rules-only block X (inserted before or after another block that carries a check); outcomes and query result sets compared by the solver",
+		Explanation: "Authorize and Query executed on a token with and without a facts-and-rules-only block X (inserted before or after another block that carries a check; one family pads the authority block with concrete facts so that the evaluator's fact storage has spare capacity); outcomes and query result sets compared by the solver",
 		LevelText:   "Bounded symbolic relational model checking: with X's facts and rules symbolic (names colliding with authority/authorizer/other-block names at the solver's choice), the authorization outcome class and the authorizer's query results are identical with and without X, at both positions.",
 		LevelNote:   "Positive half (authority facts visible to every block) is covered by the C04 reference. Scenario families as listed.", DesignRef: "DESIGN.md §6 authz family",
 	})
 	checks = append(checks, &CheckSpec{
 		Prop:    "C13",
-		Harness: []string{"c01_chain.go", "c16_keyid.go", "authz_gen.go", "c04_authz.go", "authz_rel.go"},
+		Harness: hb(),
 		Entries: []EntrySpec{
 			{Pkg: "biscuit", Func: "VerifC13Reset",
 				Quick:    sc2(sc("authFacts", 1), "az1Facts", 1, "az1Rule", 0, "az1Check", 0, "az2Facts", 0, "az2Rule", 0, "az2Check", 1),
@@ -106,7 +111,7 @@ func init() {
 	// C09: add the behavioural-equivalence entry to the chain check
 	for _, c := range checks {
 		if c.Prop == "C09" {
-			c.Harness = []string{"c01_chain.go", "c16_keyid.go", "authz_gen.go", "c04_authz.go", "authz_rel.go"}
+			c.Harness = hb()
 			c.Entries = append(c.Entries, EntrySpec{Pkg: "biscuit", Func: "VerifC09Equivalent",
 				Quick:    sc("authFacts", 1, "authRule", 1, "authCheck", 1, "blocks", 1, "blkFacts", 1, "blkCheck", 1),
 				Thorough: sc("authFacts", 1, "authRule", 2, "authCheck", 1, "blocks", 1, "blkFacts", 1, "blkRule", 1, "blkCheck", 2, "azFacts", 1, "policies", 2),
@@ -117,7 +122,7 @@ func init() {
 
 func init() {
 	relModels := []string{modelSig, modelCodec, modelCtx}
-	hs := []string{"c01_chain.go", "c16_keyid.go", "authz_gen.go", "c04_authz.go", "authz_rel.go", "authz_c12_c18.go"}
+	hs := hb("authz_c12_c18.go")
 	checks = append(checks, &CheckSpec{
 		Prop:    "C12",
 		Harness: hs,
@@ -127,9 +132,13 @@ func init() {
 				Thorough: p("authRule", 2, "authCheck", 1, "azRule", 1, "azRule2", 1, "qMode", 2, "policies", 2, "polMode", 1, "polq", 1),
 				Covers:   []string{"compared"}},
 			{Pkg: "biscuit", Func: "VerifC12RuleOrder", Quick: p("polq", 1), Thorough: p("polq", 1), Covers: []string{"compared"}},
+			{Pkg: "biscuit", Func: "VerifC12Twice",
+				Quick:    p("authFacts", 1, "authPad", 2, "blkFacts", 1, "blkCheck", 1, "blk2Facts", 1, "polq", 1),
+				Thorough: p("authFacts", 1, "authPad", 4, "blkFacts", 1, "blkCheck", 2, "blk2Facts", 1, "polq", 1),
+				Covers:   []string{"compared"}},
 		},
 		Assumptions: authzAssume, Models: relModels,
-		Explanation: "the same symbolic content is presented twice, the second time transformed (facts / rules / checks / queries permuted, variable renamed, a fact duplicated, or Authorize called twice on one authorizer); outcome class and derived facts compared by the solver",
+		Explanation: "the same symbolic content is presented twice, the second time transformed (facts / rules / checks / queries permuted, variable renamed, a fact duplicated, or Authorize called twice on one authorizer); a token with two attenuation blocks and a padded authority block evaluated one, two and three times by one authorizer against a fresh one; outcome class and derived facts compared by the solver",
 		LevelText:   "Bounded symbolic relational model checking: for each of eight presentation transformations and all symbolic names/constants of the scenario family, the outcome class and the queried fact sets are equal.",
 		LevelNote:   "Go map iteration order is not involved in the evaluated code paths (slices only); permutations are transpositions of two elements.", DesignRef: "DESIGN.md §6 authz family",
 	})
@@ -141,9 +150,14 @@ func init() {
 				Quick:    sc("authFacts", 1, "azFacts", 1, "azRule", 1, "azCheck", 1, "policies", 2),
 				Thorough: sc("authFacts", 1, "authRule", 1, "azFacts", 2, "azRule", 2, "azCheck", 2, "policies", 2, "polMode", 2),
 				Covers:   []string{"compared"}},
+			// the snapshot that is loaded is the second one taken from the same authorizer
+			{Pkg: "biscuit", Func: "VerifC18Snapshot",
+				Quick:    sc("authFacts", 1, "azFacts", 1, "azCheck", 1, "policies", 1, "secondSave", 1),
+				Thorough: sc("authFacts", 1, "azFacts", 1, "azRule", 1, "azCheck", 1, "policies", 2, "secondSave", 1),
+				Covers:   []string{"compared"}},
 		},
 		Assumptions: authzAssume, Models: relModels,
-		Explanation: "SerializePolicies -> ideal codec -> LoadPolicies into a fresh authorizer for the same or another token, then Authorize and Query on both; refusal after evaluation",
+		Explanation: "SerializePolicies (once or twice) -> ideal codec -> LoadPolicies into a fresh authorizer for the same or another token, then Authorize and Query on both and on the original authorizer that was saved; refusal after evaluation",
 		LevelText:   "Bounded symbolic relational model checking: the restored authorizer gives the same outcome class and query results as an authorizer loaded directly with the same content, for the same token and for a different token; SerializePolicies fails after Authorize and after Query.",
 		LevelNote:   "Message-level codec; malformed snapshot bytes are part of C10's hostile-message harness.", DesignRef: "DESIGN.md §6 authz family",
 	})
